@@ -86,6 +86,19 @@ func genC08(t *rapid.T) any {
 	}
 	if rapid.IntRange(0, 3).Draw(t, "haswhere") != 0 {
 		c.Where = pt.genBoolExpr(t, 1, "w")
+		if rapid.IntRange(0, 2).Draw(t, "richwhere") == 0 {
+			// the full predicate grammar of C01 (IN / NOT IN lists, BETWEEN, LIKE, IS ..., AND / OR / NOT) on the
+			// non-nullable columns: nested and per-leaf execution must agree on it whatever it means
+			tb := &Table{}
+			for _, col := range pt.Tb.Cols {
+				if !col.Nullable && (col.Kind == "int" || col.Kind == "num" || col.Kind == "str" || col.Kind == "bool") {
+					tb.Cols = append(tb.Cols, col)
+				}
+			}
+			if len(tb.Cols) > 0 {
+				c.Where = genPred(t, tb, &PredSpec{}, rapid.IntRange(0, 2).Draw(t, "richdepth"), "rw")
+			}
+		}
 	}
 	// siblings of nn that queries inside the inner arrays reach through `<-`
 	icol := pt.Ints[0]
